@@ -47,7 +47,7 @@ def plan(tier):
         return {"runs": 150000, "slice": 500, "budget_s": 2400,
                 "slice_timeout_s": 1200}
     return {"runs": 6400, "slice": 100, "budget_s": 150,
-            "slice_timeout_s": 400}
+            "slice_timeout_s": 600}
 
 
 class _Timeout(Exception):
